@@ -1,6 +1,6 @@
 (* C07 — Comparisons form a consistent total order with number < text < logical.
    Property theorems only; proofs are in Proofs/ComparatorProofs.v. *)
-From HX Require Import Model.Base Model.Calendar Model.Serial Model.Comparator Proofs.ComparatorProofs.
+From HX Require Import Model.Base Model.Calendar Model.Serial Model.Comparator Proofs.ComparatorProofs Proofs.ComparatorOrder.
 From Coq Require Import QArith.
 Open Scope Z_scope.
 
@@ -56,6 +56,20 @@ Theorem C07_blank_right : forall a, nonblank a ->
   cmp_lt a SBlank = cmp_lt a (blank_as a) /\ cmp_gt a SBlank = cmp_gt a (blank_as a) /\ cmp_eq a SBlank = cmp_eq a (blank_as a).
 Proof. exact blank_right. Qed.
 
+(* order-theoretic corollaries for every pair of values, blank included (Proofs/ComparatorOrder.v) *)
+Theorem C07_reflexive : forall a, cmp_lt a a = false /\ cmp_gt a a = false /\ cmp_eq a a = true.
+Proof. exact lt_irreflexive. Qed.
+Theorem C07_asymmetric : forall a b, cmp_lt a b = true -> cmp_lt b a = false.
+Proof. exact lt_asymmetric. Qed.
+Theorem C07_eq_symmetric : forall a b, cmp_eq a b = cmp_eq b a.
+Proof. exact eq_symmetric. Qed.
+Theorem C07_le_total : forall a b, cmp_le a b = true \/ cmp_ge a b = true.
+Proof. exact le_total. Qed.
+Theorem C07_le_antisymmetric : forall a b, cmp_le a b = true -> cmp_le b a = true -> cmp_eq a b = true.
+Proof. exact le_antisymmetric. Qed.
+Theorem C07_le_ge_converse : forall a b, cmp_le a b = cmp_ge b a.
+Proof. exact le_ge_converse. Qed.
+
 Example C07_examples :
   cmp_lt (SBool true) (SNum 3) = false /\ cmp_gt (SBool true) (SNum 3) = true /\
   cmp_eq (SNum 1) (SBool true) = false /\ cmp_lt (SNum 3) (SText [97]) = true /\
@@ -66,6 +80,8 @@ Example C07_examples :
 Proof. vm_compute. repeat split; try reflexivity; discriminate. Qed.
 
 Print Assumptions C07_trichotomy.
+Print Assumptions C07_eq_symmetric.
+Print Assumptions C07_le_antisymmetric.
 Print Assumptions C07_le_derived.
 Print Assumptions C07_ge_derived.
 Print Assumptions C07_ne_derived.
